@@ -221,6 +221,8 @@ def streams(pid, tier, seed):
         add("sweepB", gen.sweep_block_b(stride(8, 1), seed))
         add("edges", gen.sweep_edges())
         add("mixed", mixed_stream(seed, 25000 if q else 400000, ext=False)[0])
+        # one station held, fades (B, C, D uncorrectable together while A decodes), single groups of a foreign station
+        add("station", gen.station_stream(seed, 12000 if q else 200000))
     elif pid == "C02":
         add("sweepChars", gen.sweep_chars(stride(2, 1), seed))
         add("text", text_stream(seed, 15000 if q else 300000))
